@@ -107,7 +107,7 @@ class Task(NamedUIDObject):
             # TODO: Should implement a penalty function if the due_date can be delayed
 
     def add_required_resource(
-        self, resource: Resource, dynamic=False, delay_in=0, early_out=0
+        self, resource: Resource, dynamic=False, delay_in=0, early_out=0, _only_if=None
     ) -> None:
         """
         Add a required resource to the current task.
@@ -132,6 +132,15 @@ class Task(NamedUIDObject):
         if isinstance(resource, SelectWorkers):
             # loop over each resource
             for worker in resource.list_of_workers:
+                if isinstance(worker, CumulativeWorker):
+                    # a cumulative worker among the alternatives: if it is selected, the task
+                    # occupies (at least) one of its elementary workers, as when the
+                    # cumulative worker is directly required; none otherwise
+                    self.add_required_resource(
+                        worker.get_select_workers(),
+                        _only_if=resource._selection_dict[worker],
+                    )
+                    continue
                 resource_maybe_busy_start = z3.Int(
                     f"{worker.name}_maybe_busy_{self.name}_start"
                 )
@@ -168,7 +177,18 @@ class Task(NamedUIDObject):
                 # finally, add each worker to the "required" resource list
                 self._required_resources.append(worker)
             # also, don't forget to add the AlternativeWorker assertion
-            self.append_z3_assertion(resource._selection_assertion)
+            if _only_if is None:
+                self.append_z3_assertion(resource._selection_assertion)
+            else:
+                # nested selection (elementary workers of a cumulative worker that is
+                # itself an alternative): it applies only if the cumulative worker is selected
+                self.append_z3_assertion(
+                    z3.If(
+                        _only_if,
+                        resource._selection_assertion,
+                        z3.Not(z3.Or(list(resource._selection_dict.values()))),
+                    )
+                )
         elif isinstance(resource, Worker):
             resource_busy_start = z3.Int(f"{resource.name}_busy_{self.name}_start")
             resource_busy_end = z3.Int(f"{resource.name}_busy_{self.name}_end")
